@@ -48,6 +48,32 @@ class Nonterminating(Exception):
     pass
 
 
+class Ptr(object):
+    """a forall iterator: it designates an element of the table (writes land in the table)"""
+    def __init__(self, tab, i):
+        self.tab = tab
+        self.i = i
+
+    def get(self):
+        return self.tab[self.i]
+
+    def set(self, v):
+        self.tab[self.i] = v
+
+
+def rd(env, name):
+    v = env.get(name)
+    return v.get() if isinstance(v, Ptr) else v
+
+
+def wr(env, name, val):
+    v = env.get(name)
+    if isinstance(v, Ptr):
+        v.set(val)
+    else:
+        env[name] = val
+
+
 ERR_DZ = ("DIVIDE_BY_ZERO", "Divide by zero.", 23)
 ERR_OOR = ("OUT_OF_RANGE", "Out of range.", 21)
 
@@ -178,7 +204,7 @@ class Ref:
         if k == "bool":
             return e[1]
         if k == "var":
-            return env.get(e[1])
+            return rd(env, e[1])
         if k == "div0":
             raise BlocError(*ERR_DZ[:1], catchable=True, msg=ERR_DZ[1], no=ERR_DZ[2])
         if k == "fatal":
@@ -249,14 +275,14 @@ class Ref:
         if k == "print":
             self.out.append(s[1])
         elif k == "printv":
-            self.out.append(self.fmt(env.get(s[1])))
+            self.out.append(self.fmt(rd(env, s[1])))
         elif k == "printe":
             self.out.append(self.fmt(self.ev(s[1], env, depth)))
         elif k == "printh":
             ce = self.cur_error
             self.out.append(s[1] + (ce.name if ce else "") + ":" + ("TRUE" if ce and ce.msg else "FALSE"))
         elif k == "let":
-            env[s[1]] = self.ev(s[2], env, depth)
+            wr(env, s[1], self.ev(s[2], env, depth))
         elif k == "eval":
             env["zz"] = self.ev(s[1], env, depth)
         elif k == "nop":
@@ -347,7 +373,7 @@ class Ref:
 
     def do_forall(self, s, env, depth):
         _, var, tabvar, order, body = s
-        tab = env.get(tabvar)
+        tab = rd(env, tabvar)
         if not tab:
             return      # nothing to visit: the manual does not say what the iterator holds then
         idx = list(range(len(tab)))
@@ -358,15 +384,11 @@ class Ref:
                 self.steps += 1
                 if self.steps > self.budget:
                     raise Nonterminating()
-                env[var] = tab[i]
+                env[var] = Ptr(tab, i)      # the iterator designates the element
                 try:
                     self.block(body, env, depth)
                 except _Continue:
                     pass
-                finally:
-                    # writes through the iterator land in the table
-                    if var in env:
-                        tab[i] = env[var]
         except _Break:
             pass
         finally:
